@@ -282,18 +282,44 @@ def helpers_rule(F, rep):
     p = PEPPI % ("Frame", "port_data_from_struct_array")
     b = F.body(p)
     ok = False
+
+    def scan(scope, iv, child, vparam):
+        """inside scope: PortData::from_struct_array(<child downcast+clone>, version, Port::parse(&fields[i].name))"""
+        def is_i(e):
+            e = strip(e)
+            while e.get("k") == "Cast":
+                e = strip(e["e"])
+            return e.get("k") == "Path" and e.get("id") == iv
+        conv = parse_ok = False
+        for c in tir.walk(scope):
+            if c.get("k") == "Call" and (declared(c) or "").endswith("<impl frame::immutable::PortData>::from_struct_array") and len(c["args"]) == 3:
+                a0 = strip(c["args"][0])
+                chain = []
+                while a0.get("k") == "MethodCall":
+                    chain.append(a0["method"])
+                    a0 = strip(a0["recv"])
+                conv = a0.get("k") == "Path" and a0.get("id") == child and child is not None and set(chain) <= {"clone", "unwrap", "downcast_ref", "as_any", "expect"} and "downcast_ref" in chain
+                conv = conv and L.local_name(c["args"][1]) == vparam
+                for y in tir.walk(c["args"][2]):
+                    if y.get("k") == "Call" and (declared(y) or "") == "game::Port::parse" and len(y["args"]) == 1:
+                        nm = strip(y["args"][0])
+                        parse_ok = nm.get("k") == "Field" and nm["name"] == "name" and strip(nm["base"]).get("k") == "Index" and tir.place(strip(nm["base"])["base"]) == "fields" and is_i(strip(nm["base"])["index"])
+        return conv, parse_ok
+
+    def get_i(g, iv):
+        g = strip(g)
+        if not (g.get("k") == "MethodCall" and g["method"] == "get" and tir.place(g["recv"]) == "values" and g.get("args")):
+            return False
+        e = strip(g["args"][0])
+        while e.get("k") == "Cast":
+            e = strip(e["e"])
+        return e.get("k") == "Path" and e.get("id") == iv
     if b is not None:
+        vparam = b["tir"]["params"][1].get("name")
         for n in tir.walk(b["tir"]["value"]):
             if n.get("k") == "For":
                 it = tir.pretty(n["iter"])
                 iv = n["pat"].get("id")
-                vparam = b["tir"]["params"][1].get("name")
-
-                def is_i(e):
-                    e = strip(e)
-                    while e.get("k") == "Cast":
-                        e = strip(e["e"])
-                    return e.get("k") == "Path" and e.get("id") == iv
                 child = None     # binding of `values.get(i)`
                 bounded = "game::NUM_PORTS" in it
                 if n["pat"].get("k") == "Tuple" and len(n["pat"].get("pats", [])) == 2 and all(q.get("k") == "Bind" for q in n["pat"]["pats"]):
@@ -313,23 +339,20 @@ def helpers_rule(F, rep):
                 for x in tir.walk(n["body"]):
                     if x.get("k") == "If" and strip(x["cond"]).get("k") == "LetCond":
                         lc = strip(x["cond"])
-                        g = strip(lc["init"])
-                        if (lc["pat"].get("path") or "").endswith("::Some") and g.get("k") == "MethodCall" and g["method"] == "get" and tir.place(g["recv"]) == "values" and is_i(g["args"][0]):
+                        if (lc["pat"].get("path") or "").endswith("::Some") and get_i(lc["init"], iv):
                             child = lc["pat"]["pats"][0].get("id")
-                conv = parse_ok = False
-                for c in tir.walk(n["body"]):
-                    if c.get("k") == "Call" and (declared(c) or "").endswith("<impl frame::immutable::PortData>::from_struct_array") and len(c["args"]) == 3:
-                        a0 = strip(c["args"][0])
-                        # the child itself, downcast to a StructArray and cloned
-                        chain = []
-                        while a0.get("k") == "MethodCall":
-                            chain.append(a0["method"])
-                            a0 = strip(a0["recv"])
-                        conv = a0.get("k") == "Path" and a0.get("id") == child and child is not None and set(chain) <= {"clone", "unwrap", "downcast_ref", "as_any", "expect"} and "downcast_ref" in chain
-                        conv = conv and L.local_name(c["args"][1]) == vparam
-                        for y in tir.walk(c["args"][2]):
-                            if y.get("k") == "Call" and (declared(y) or "") == "game::Port::parse" and len(y["args"]) == 1:
-                                nm = strip(y["args"][0])
-                                parse_ok = nm.get("k") == "Field" and nm["name"] == "name" and strip(nm["base"]).get("k") == "Index" and tir.place(strip(nm["base"])["base"]) == "fields" and is_i(strip(nm["base"])["index"])
+                conv, parse_ok = scan(n["body"], iv, child, vparam)
                 ok = bounded and child is not None and conv and parse_ok
+            elif n.get("k") == "MethodCall" and n["method"] == "filter_map" and len(n.get("args", [])) == 1 and not ok:
+                # (0..NUM_PORTS).filter_map(|i| values.get(i).map(|a| PortData::from_struct_array(..))).collect()
+                rg, cl = strip(n["recv"]), strip(n["args"][0])
+                if rg.get("k") == "Struct" and (rg.get("path") or "").endswith("ops::Range") and "game::NUM_PORTS" in tir.pretty(rg) and cl.get("k") == "Closure" and len(cl["params"]) == 1 and cl["params"][0].get("k") == "Bind":
+                    f0 = {x["name"]: strip(x["e"]) for x in rg["fields"]}
+                    body = strip(cl["body"])
+                    iv = cl["params"][0]["id"]
+                    if tir.lit_int(f0.get("start") or {}) == 0 and body.get("k") == "MethodCall" and body["method"] == "map" and get_i(body["recv"], iv):
+                        icl = strip(body["args"][0])
+                        if icl.get("k") == "Closure" and len(icl["params"]) == 1 and icl["params"][0].get("k") == "Bind":
+                            conv, parse_ok = scan(icl["body"], iv, icl["params"][0]["id"], vparam)
+                            ok = conv and parse_ok
     rep.ob("import.ports", ok, p, "loop", "ports must be imported child-by-child with the port parsed from the same child's field name")
